@@ -8,7 +8,8 @@ import hashlib
 import multiprocessing
 
 VERIF = os.path.dirname(os.path.dirname(os.path.abspath(__file__)))
-EVIDENCE_DIR = os.path.join(VERIF, "evidence")
+EVIDENCE_DIR = os.environ.get("VERIF_EVIDENCE_DIR") or os.path.join(
+    VERIF, "evidence")
 REPLAY_DIR = os.path.join(VERIF, "replays")
 KNOWN_FILE = os.path.join(VERIF, "known_findings.json")
 
